@@ -914,6 +914,9 @@ def l4b(repo, res, canon, logic):
                         ok = Lit('%s in %s' % (xs, L), True) in must
                         if not ok and isinstance(x, ast.Name):
                             rv = reaching_value(p, i, x.id)
+                            # the membership test may have been made on the expression the local was then bound to
+                            if isinstance(rv, ast.expr) and Lit('%s in %s' % (canon.c(rv, fr), L), True) in must:
+                                ok = True
                             if isinstance(rv, ast.Subscript) and isinstance(rv.value, ast.Name) and \
                                     rv.value.id == L and (
                                     Lit('empty(%s)' % L, False) in must or Lit('truthy(%s)' % L, True) in must):
